@@ -72,8 +72,8 @@ pub fn fam_state(family: Family) -> BoxedStrategy<FamState> {
                             p.frags = (p.frags as u32 & 0xFFFF) as i32;
                         }
                     }
-                    // the reply is one datagram of at most 1024 bytes
-                    while st.encode().len() > 1024 {
+                    // the reply is one datagram
+                    while st.encode().len() > mq::MAX_REPLY {
                         if st.players.pop().is_none() {
                             let keep: Vec<(String, String)> = st
                                 .vars
